@@ -42,7 +42,7 @@ def alias_events(spec, target):
 
 def gen_history(rng, n_events):
     spec = vprog.gen_spec(rng, n_m=rng.randint(2, 4), n_p=rng.randint(1, 3), n_v=rng.randint(2, 3), n_u=rng.randint(1, 2), p_hidden=0.0, p_explicit=0.15,
-                          pkg2=rng.random() < 0.3)
+                          pkg2=rng.random() < 0.3, vdef=True)
     # make aliases likelier
     fns = [n for n in spec["nodes"] if n["kind"] in "mp"]
     for n in fns:
@@ -217,6 +217,34 @@ def builtin_history():
     return spec0, events, specs, descs
 
 
+def default_object_history():
+    """mutable module variables that are the DEFAULT VALUE of a parameter (of a plain helper and of a memento function)
+    are mutated in place: the function object keeps that very object, so its description changes with it"""
+    def fn(name, kind, module, const, refs=()):
+        return {"name": name, "kind": kind, "module": module, "const": const, "default": None, "kwdefault": None, "setconst": None, "tupconst": None,
+                "sset": None, "pair": None, "nested": None, "explicit": None, "hidden": None, "shadow": None, "refs": [list(r) for r in refs]}
+    spec = {"pkg": "vpk", "nodes": [{"name": "G0", "kind": "v", "module": "a", "vkind": "dict", "value": {"k": 4}},
+                                    {"name": "G1", "kind": "v", "module": "b", "vkind": "list", "value": [1, 2]},
+                                    fn("h0", "p", "a", 3, [("G0", "vdef")]),
+                                    fn("m0", "m", "a", 10, [("h0", "bare")]),
+                                    fn("m1", "m", "b", 20, [("G1", "vdef")]),
+                                    fn("m2", "m", "b", 30, [("m1", "bare")])]}
+    spec0 = copy.deepcopy(spec)
+    events, specs, descs = [], [], []
+
+    def step(evs, d, q):
+        events.extend(evs)
+        events.append({"op": "query", "names": q})
+        specs.append((copy.deepcopy(spec), {}, q))
+        descs.append(d)
+    step([], "rebind variable G0 (no change, first query)", ["m0", "m1", "m2"])
+    vprog.node(spec, "G0")["value"] = {"k": 104}
+    step([{"op": "mutate", "mod": "a", "name": "G0", "value": 104}], "mutate variable G0 in place (default value of a parameter of helper h0)", ["m0"])
+    vprog.node(spec, "G1")["value"] = [1, 2, 7]
+    step([{"op": "mutate", "mod": "b", "name": "G1", "value": 7}], "mutate variable G1 in place (default value of a parameter of m1)", ["m2", "m1"])
+    return spec0, events, specs, descs
+
+
 def run(tier, seed):
     rep = C.Report("C13", tier, seed)
     gate = C.proof_gate("C13")
@@ -228,8 +256,8 @@ def run(tier, seed):
     terms, metas = [], []
     with C.Scratch("c13") as scratch:
         jobs = []
-        for hi in range(n_hist + 1):
-            spec0, events, specs, descs = builtin_history() if hi == n_hist else gen_history(rng, rng.randint(4, 8) if tier == "quick" else rng.randint(4, 12))
+        for hi in range(n_hist + 2):
+            spec0, events, specs, descs = builtin_history() if hi == n_hist else default_object_history() if hi == n_hist + 1 else gen_history(rng, rng.randint(4, 8) if tier == "quick" else rng.randint(4, 12))
             jobs.append((hi, spec0, events, specs, descs, str(rng.randint(0, 99999))))
 
         def work(job):
